@@ -245,7 +245,7 @@ def run(chk):
         full = (not q) or nk not in full_done
         full_done.add(nk)
         rounds = list(range(16)) if full else [0, 1, 7, 14, 15]
-        all_stops(chk, cases, beh, ci, rounds, False, ['uint8', 'int16', 'int64'][ci % 3])
+        all_stops(chk, cases, beh, ci, rounds, False, ['uint8', 'int16', 'int64', '>u2', '>i8'][ci % 5])
         if ci % 2 == 0:
             all_stops(chk, cases, beh, ci, rounds if full else [0, 15], True, 'uint8')
     shapes(chk, cases, grid, beh, rng, nkeys, nblocks)
